@@ -40,7 +40,7 @@ class Reporter:
                 self.hit[e["id"]] = self.hit.get(e["id"], 0) + 1
                 return False
         self.nviol += 1
-        if len(self.violations) < 40:
+        if len(self.violations) < int(os.environ.get("VERIF_MAXREPLAY", "40")):
             d = out_dir(self.pid, "replay")
             path = os.path.join(d, "%s_%03d.json" % (name or "case", self.nviol))
             case_desc = dict(case_desc)
